@@ -523,6 +523,84 @@ def m_option_and_then(I, st, args, dest_ty, fn, b, line, fref):
     return EnumV("Option", None, (), 2, v.ddeps | r.ddeps | d, {0: (), 1: tuple(some)})
 
 
+def _res_parts(v):
+    """(ok payload or None, err payload or None, known variant or None) of a Result value"""
+    if v.kind != "enum":
+        return None, None, None
+    if v.variant == 0:
+        return (v.fields[0] if v.fields else UNIT), None, 0
+    if v.variant == 1:
+        return None, (v.fields[0] if v.fields else UNIT), 1
+    alts = v.alts or {}
+    ok = alts[0][0] if alts.get(0) else (UNIT if 0 in alts else None)
+    er = alts[1][0] if alts.get(1) else (UNIT if 1 in alts else None)
+    return ok, er, None
+
+
+def m_result_comb(kind):
+    """Result::map / map_err / and_then / or_else / unwrap_or_else with the closure's body run on the payload"""
+    def f(I, st, args, dest_ty, fn, b, line, fref):
+        v, clos = args[0], args[1]
+        d = _deps(I, st, args)
+        ok, er, known = _res_parts(v)
+        if v.kind != "enum" or (ok is None and er is None):
+            return I.havoc_call(st, args, dest_ty)
+        on_ok = kind in ("map", "and_then")
+        src = ok if on_ok else er
+        out_same = er if on_ok else ok   # the side that is handed on unchanged
+        r = None
+        if src is not None and known in (None, 0 if on_ok else 1):
+            s_before = st.copy() if known is None else None
+            r = I.call_closure(st, clos, [src])
+            if r is None:
+                return I.havoc_call(st, args, dest_ty)
+            if s_before is not None:
+                j = I.join_states(s_before, st, len(st.frames) - 1)
+                st.frames, st.pc, st.refined, st.corr, st.afacts, st.rel = j.frames, j.pc, j.refined, j.corr, j.afacts, j.rel
+        if kind == "unwrap_or_else":
+            if known == 0:
+                return ok
+            if known == 1:
+                return r
+            from absint import vjoin
+            return vjoin(ok, r, d)
+        alts = {}
+        if on_ok:
+            if r is not None:
+                if kind == "map":
+                    alts[0] = (r,)
+                else:
+                    rok, rer, rk = _res_parts(r)
+                    if rok is not None:
+                        alts[0] = (rok,)
+                    if rer is not None:
+                        alts[1] = (rer,)
+            if out_same is not None and 1 not in alts:
+                alts[1] = (out_same,)
+        else:
+            if out_same is not None:
+                alts[0] = (out_same,)
+            if r is not None:
+                if kind == "map_err":
+                    alts[1] = (r,)
+                else:
+                    rok, rer, rk = _res_parts(r)
+                    if rok is not None and 0 not in alts:
+                        alts[0] = (rok,)
+                    if rer is not None:
+                        alts[1] = (rer,)
+        if len(alts) == 1:
+            k = next(iter(alts))
+            return EnumV("Result", k, alts[k], 2, v.ddeps | d)
+        return EnumV("Result", None, (), 2, v.ddeps | d, alts)
+    return f
+
+
+def m_str_parse(I, st, args, dest_ty, *r):
+    """str::parse::<T>() for integer T: from_str_radix(.., 10)"""
+    return m_from_str_radix(I, st, [args[0], IntV.const("u32", 10)], dest_ty, *r)
+
+
 def m_panic(I, st, args, dest_ty, fn, b, line, fref):
     I.event("assert", fn, b, line, akind="panic-call:" + fref.get("def", "?"), status="reached", witness=None, vals=[], exp=False)
     st.dead = True
@@ -618,7 +696,7 @@ def m_range_next(inclusive):
         if rg.kind == "agg":
             ints = [x for x in rg.fields if x.kind == "int"]
         elif rg.kind == "top" and rg.tag and rg.tag[0] == "range":
-            ints = list(rg.tag[1])
+            ints = [x for x in rg.tag[1] if x.kind == "int"]
         if len(ints) >= 2 and M.int_type(inner):
             lo, hi = ints[0], ints[1]
             top = hi.hi if inclusive else hi.hi - 1
@@ -647,7 +725,7 @@ def iter_elem(I, st, it):
         ints = [x for x in it.fields if x.kind == "int"]
         incl = str(it.name).split("<")[0].endswith("RangeInclusive")
     elif it.kind == "top" and it.tag and it.tag[0] == "range":
-        ints = list(it.tag[1])
+        ints = [x for x in it.tag[1] if x.kind == "int"]
         incl = True
     if len(ints) >= 2:
         lo, hi = ints[0], ints[1]
@@ -810,6 +888,12 @@ MODELS = [(re.compile(p), f) for p, f in [
     (r"from_str_radix$", m_from_str_radix),
     (r"Option::<T>::unwrap$|Result::<T, E>::unwrap$|::expect$", m_unwrap),
     (r"Option::<T>::unwrap_or$", m_unwrap_or),
+    (r"Result::<T, E>::map(::<|$)", m_result_comb("map")),
+    (r"Result::<T, E>::map_err(::<|$)", m_result_comb("map_err")),
+    (r"Result::<T, E>::and_then(::<|$)", m_result_comb("and_then")),
+    (r"Result::<T, E>::or_else(::<|$)", m_result_comb("or_else")),
+    (r"Result::<T, E>::unwrap_or_else(::<|$)", m_result_comb("unwrap_or_else")),
+    (r"<impl str>::parse(::<|$)", m_str_parse),
     (r"Option::<T>::and_then(::<|$)", m_option_and_then),
     (r"Option::<T>::map::<", m_option_map),
     (r"Option::<T>::map$", m_option_map),
